@@ -418,6 +418,53 @@ def run(ck, facts):
     # "implied bounds spelled out on the method": validate_ty_in_method restates them for every lifetime of the type, the reference's own included (C04.R4)
     c04.run(C.SubCheck(ck, "R4", "", ["R4"], key_re=r"validate_ty_in_method"), facts)
     parse_rules(ck, "R3", "R4", facts)
+    # the receiver gate gives one verdict for every backend: "no references to structs" is not a question of feature support, so no arm of
+    # lower_self_param consults the backend's support profile (the type gates do, for the shapes the documentation ties to a support flag: R1's table)
+    lsp = facts.core.fn("hir::lowering::LoweringContext::lower_self_param")
+    narm = 0
+    for n in C.walk(C.fn_body(lsp)):
+        if n.get("k") == "match" and (n.get("sadt") or "").endswith("ast::types::CustomType"):
+            for arm in n["arms"]:
+                v = arm["pat"].get("v")
+                if v not in ("Struct", "Opaque", "Enum"):
+                    continue
+                narm += 1
+                arm_nodes = list(C.walk_inl(facts.core, arm["b"], 1, exclude=[lsp["path"]], max_nodes=1500))
+                prof = sorted({x.get("n") for x in arm_nodes if x.get("k") == "field" and "BackendAttrSupport" in (x.get("bty") or "")} |
+                              {"attrs_supported()" for x in arm_nodes if x.get("k") == "mcall" and x.get("m") == "attrs_supported"})
+                ck.expect(not prof, "R3", "lower_self_param/%s/profile-independent" % v, "same verdict for every backend",
+                          "the %s arm of lower_self_param reads the backend support profile (%s): a receiver form rejected for one backend is accepted for another, and the accepted "
+                          "lowering does not match what the macro exports" % (v, ", ".join(prof)), C.loc(lsp, arm.get("ln")))
+    if narm < 3:
+        ck.bad("R3", "lower_self_param/profile-independent/floor", "only %d of the Struct/Opaque/Enum arms of lower_self_param found" % narm, C.loc(lsp))
+    # the bounds a method is compared against are the ones the type's definition implies: a definition that stores its fields builds its lifetime
+    # environment from those same fields (`&'a Inner<'b>` in a field implies 'b: 'a for every user of the struct)
+    core = facts.core
+    nenv = 0
+    for f in core.fn_list:
+        if "hir" not in f or not f["path"].startswith("diplomat_core::ast::"):
+            continue
+        lits = [n for n in C.walk(C.fn_body(f)) if n.get("k") == "struct" and {"fields", "lifetimes"} <= {fl["n"] for fl in n.get("fields", [])}]
+        if not lits:
+            continue
+        defs_ = flow.defs_of(f) if "flow" in globals() else None
+        for lit in lits:
+            fl = {x["n"]: C.strip(x["e"]) for x in lit["fields"]}
+            fid = fl["fields"].get("id") if fl["fields"].get("k") == "local" else None
+            # the call that builds the environment (directly in the literal or through a local)
+            env = fl["lifetimes"]
+            if env.get("k") == "local":
+                env = next((C.strip(n["init"]) for n in C.walk(C.fn_body(f)) if n.get("k") == "letst" and (n.get("pat") or {}).get("id") == env.get("id") and n.get("init")), env)
+            if env.get("k") not in ("call", "mcall"):
+                continue
+            nenv += 1
+            arg_ids = {y.get("id") for a_ in (env.get("a") or []) for y in C.walk(a_) if y.get("k") == "local"}
+            name_ = C.norm_path(f["path"]).split("::", 1)[-1]
+            ck.expect(fid is not None and fid in arg_ids, "R4", "%s/lifetime-env-from-own-fields" % name_, "environment built from the stored fields",
+                      "%s stores its fields but builds its lifetime environment without them: bounds implied by a field (`&'a Inner<'b>` => 'b: 'a) are unknown at the definition, "
+                      "so a method that omits the implied bound is no longer rejected" % name_, C.loc(f, lit.get("ln")))
+    if nenv < 1:
+        ck.bad("R4", "lifetime-env-from-own-fields/floor", "no AST definition that stores both its fields and a lifetime environment found (1 counted: ast::structs::Struct::new)")
 
 
 def _canon(n):
